@@ -902,7 +902,7 @@ META = {
              'recorded invalid and None is returned; the scCHIC coordinate does not depend on invert_strand. pysam clip identities '
              '(query_alignment_start etc.) are part of the symbol table. Does NOT decide agreement with a simulated genome or aligner clipping behaviour; '
              'the NlaIII no_overhang arm is scoped out by its guard.'),
-    'technique': 'static analysis: path-forking symbolic execution with linear forms over alignment coordinates, exhaustive enumeration of boolean atoms, mirror-symmetry and table comparison; small-scope abstract execution of NlaIII identify_site / set_site on model reads (strand x clip x options x motif at either end) where the symbolic reading cannot follow',
+    'technique': 'static analysis: path-forking symbolic execution with linear forms over alignment coordinates, exhaustive enumeration of boolean atoms, mirror-symmetry and table comparison; small-scope abstract execution of NlaIII identify_site / set_site on model reads (strand x clip x options x motif at either end) where the symbolic reading cannot follow, likewise of CHICFragment.identify_site on 256 model fragments; def-use of constructor options through the class hierarchy',
     'design_ref': 'DESIGN.md section 5, C09',
 }
 
